@@ -2,7 +2,7 @@
 import builtins
 import z3
 from .core import Ctx, SB, Unsupported, StaleContract, PathEnd, QScope, tobool, cur, vcx_and, vcx_or, vcx_not
-from .values import SI, SF, it, py_max2, py_min2, ite, I
+from .values import SI, SF, it, py_max2, py_min2, ite, I, PINF, NINF
 from .dicts import v_dict
 
 
@@ -62,7 +62,18 @@ def v_int(x=0, *a):
     if isinstance(x, SI):
         return x
     if isinstance(x, SF):
-        raise Unsupported("int() of a symbolic float")
+        # int(float): ValueError for NaN, OverflowError for +-inf, else truncation towards zero
+        c = cur()
+        if c.ghost.get("assume_sample_count_defined"):
+            # the unit lists "int() is applied to a defined finite number" among its unchecked assumptions
+            c.assume(z3.And(z3.Not(x.nan), x.r != PINF, x.r != NINF))
+        if c.branch(SB(x.nan)):
+            raise ValueError("cannot convert float NaN to integer")
+        if c.branch(SB(z3.Or(x.r == PINF, x.r == NINF))):
+            raise OverflowError("cannot convert float infinity to integer")
+        k = z3.Int(c.fresh_name("int"))
+        c.assume(z3.If(x.r >= 0, z3.And(k <= x.r, x.r < k + 1), z3.And(k >= x.r, x.r > k - 1)))
+        return SI(k)
     return builtins.int(x, *a)
 
 
@@ -190,9 +201,10 @@ class LoopSpec:
 
 
 class LoopRun:
-    def __init__(self, spec, lid, mods):
+    def __init__(self, spec, lid, mods, inplace=()):
         self.spec = spec
         self.lid = lid
+        self.mods, self.inplace = tuple(mods), tuple(inplace)
         self.c = cur()
         extra = set(mods) - set(spec.names) - set(spec.local)
         # names the contract does not know are treated as loop-local temporaries (not havocked: reading one before it is assigned
@@ -219,6 +231,18 @@ class LoopRun:
 
     def exit(self, env):
         self.spec.exit(self, env)
+
+    def via_break(self):
+        """engine choice taken before the loop test: continue after the loop from the havocked state knowing only the invariant;
+        this one continuation stands for every exit through `break` (each of which proves the invariant and ends, see broke)"""
+        if not getattr(self.spec, "merge_breaks", False):
+            return False
+        return bool(self.c.choose("loop_exit_" + str(self.lid), 2, ["test", "break"]))
+
+    def broke(self, env):
+        if getattr(self.spec, "merge_breaks", False):
+            self.spec.at_break(self, env)
+            raise PathEnd("loop left by break: invariant re-established, continuation explored once")
 
     def havoc_frame(self, env, mods, inplace):
         """Frame-only cut: fresh values of the same kind for everything the loop body may write."""
@@ -257,18 +281,74 @@ class LoopRun:
                 if f is not None:
                     out[nm] = f
                 elif env[nm] is not None and not callable(env[nm]):
-                    raise Unsupported(f"frame havoc: no fresh value for {nm} of type {type(env[nm]).__name__}")
+                    # no fresh value of that kind: sound as long as the body assigns the name before reading it; any use of the
+                    # stale value stops the exploration instead of computing with it
+                    out[nm] = Poison(nm, type(env[nm]).__name__)
         extra = getattr(self.spec, "after_havoc", None)
         if extra:
             extra(self, env, out)
         return out
 
 
+class Poison:
+    """Value of a loop-carried name that could not be havocked: must not be used."""
+    _vcx_symbolic = True
+
+    def __init__(self, nm, tn):
+        object.__setattr__(self, "_what", f"{nm} ({tn})")
+
+    def _no(self, *a, **k):
+        raise Unsupported("use of the loop-carried value " + object.__getattribute__(self, "_what") + " that the frame havoc cannot model")
+
+    def __getattr__(self, k):
+        if k.startswith("_vcx"):
+            raise AttributeError(k)
+        self._no()
+    __getitem__ = __setitem__ = __call__ = __bool__ = __iter__ = __len__ = __add__ = __radd__ = __mul__ = __rmul__ = __sub__ = __rsub__ = _no
+    __lt__ = __le__ = __gt__ = __ge__ = __eq__ = __ne__ = __index__ = __int__ = __float__ = __neg__ = __matmul__ = __rmatmul__ = _no
+    __hash__ = None
+
+
+class FrameInvLoop(LoopSpec):
+    """`while` loop cut at a state invariant, with the frame computed from the body: at entry the invariant is proved for the
+    current state; everything the body can write (names assigned, objects written in place) is havocked and the invariant assumed;
+    if the loop test holds the body runs once and the invariant is proved again (path ends), otherwise execution continues after
+    the loop.  `break` leaves with the state the body produced.  Subclasses give inv(L, env, mode) -> [(name, z3 term)]."""
+    prefix = "loop"
+    props = None
+
+    def inv(self, L, env, mode):
+        raise NotImplementedError
+
+    def _prove(self, L, env, stage):
+        for nm, t in self.inv(L, env, "prove"):
+            L.c.oblige(f"{self.prefix}.{stage}.{nm}", t, **({"props": list(self.props)} if self.props else {}))
+
+    def begin(self, L, iterable, env):
+        self._prove(L, env, "init")
+
+    def havoc(self, L, env):
+        out = L.havoc_frame(env, L.mods, L.inplace)
+        env2 = dict(env)
+        env2.update(out)
+        for nm, t in self.inv(L, env2, "assume"):
+            L.c.assume(t)
+        return out
+
+    def end(self, L, env):
+        self._prove(L, env, "preserve")
+
+    merge_breaks = True
+
+    def at_break(self, L, env):
+        self._prove(L, env, "at_break")
+
+
 def make_vcx_loop(specs):
-    def vcx_loop(lid, mods):
+    def vcx_loop(lid, mods, inplace=()):
         if lid not in specs:
             raise StaleContract(f"no loop contract {lid}")
-        return LoopRun(specs[lid], lid, mods)
+        return LoopRun(specs[lid], lid, mods, inplace)
     return vcx_loop
 
 
